@@ -3,7 +3,7 @@
 // catch_unwind; the API model has no panicking action, so a recorded panic never matches.
 use crate::api::*;
 use crate::codec_patch_field;
-use crate::fcases::{forge, format_msg, hint_mutants};
+use crate::fcases::{forge, format_msg, hint_count_lattice, hint_mutants};
 use crate::for_set;
 use crate::util::*;
 use serde_json::{json, Value};
@@ -55,6 +55,14 @@ fn hostile<S: MlDsa>(seed: u64, scale: usize, out: &mut Out) {
     for (name, s2) in hint_mutants::<S>(&sig0, &mut p) {
         let s3 = s2.clone();
         t.call("verify", "hint-section malformations", || json!({"pk": hx(&pkb), "sig": hx(&s3), "what": name}), || S::verify(&pk, b"m", &s2, b"", "pure"));
+    }
+    {
+        let hs = S::SIG_LEN - S::OMEGA as usize - S::K;
+        for (name, y) in hint_count_lattice::<S>(2) {
+            let mut s2 = sig0.clone(); s2[hs..].copy_from_slice(&y);
+            let s3 = s2.clone();
+            t.call("verify", "hint-section count lattice", || json!({"pk": hx(&pkb), "sig": hx(&s3), "what": name}), || S::verify(&pk, b"m", &s2, b"", "pure"));
+        }
     }
     // big messages / contexts
     for n in [65536usize, 1 << 20] {
